@@ -1,17 +1,28 @@
 #!/bin/bash
-# tools/matrix.sh <outfile> <patch>...  : for each patch, apply to /repo, run all 20 quick checks, record which fire; always reverts.
+# tools/matrix.sh <outfile> <patch>...
+# For each patch: apply it to a scratch worktree of /repo (never to /repo itself), run all 20 quick checks against
+# that worktree (VERIF_REPO), record which checks fire, and reset the worktree. Checks run 6 at a time.
 OUT=$1; shift
-cd /repo || exit 9
+WT=${MATRIX_WT:-/tmp/matrixrepo}
+git -C /repo worktree prune
+[ -d "$WT" ] || git -C /repo worktree add --detach "$WT" HEAD -q || exit 9
+cd "$WT" || exit 9
+git checkout -q --detach "$(git -C /repo rev-parse HEAD)" && git checkout -- . && git clean -fdq
+export VERIF_REPO="$WT"
 for P in "$@"; do
-  if [ -n "$(git status --porcelain)" ]; then echo "/repo not clean" >> $OUT; git status --short >> $OUT; exit 9; fi
-  name=$(echo $P | sed 's#/tmp/seed/##; s#/verif/##; s#/out/#/#')
-  if ! git apply "$P" 2>/dev/null; then echo "$name APPLY-FAILED" >> $OUT; continue; fi
+  name=$(echo "$P" | sed 's#/tmp/seed/##; s#/verif/##; s#/out/#/#')
+  if ! git apply "$P" 2>/dev/null; then echo "$name APPLY-FAILED" >> "$OUT"; continue; fi
+  T=$(mktemp -d /tmp/matrix.XXXX)
+  /verif/check C01 > $T/C01.log 2>&1; echo $? > $T/C01.rc
+  printf "%s\n" C05 C14 | xargs -P 2 -I{} sh -c "/verif/check {} > $T/{}.log 2>&1; echo \$? > $T/{}.rc"
+  printf "%s\n" C02 C03 C04 C06 C07 C08 C09 C10 C11 C12 C13 C15 C16 C17 C18 C19 C20 | xargs -P 6 -I{} sh -c "/verif/check {} > $T/{}.log 2>&1; echo \$? > $T/{}.rc"
   fired=""
   for c in C01 C02 C03 C04 C05 C06 C07 C08 C09 C10 C11 C12 C13 C14 C15 C16 C17 C18 C19 C20; do
-    /verif/check $c > /tmp/matrix.$c.log 2>&1; rc=$?
-    if [ $rc -eq 1 ]; then fired="$fired $c[$(grep -c '^  \[' /tmp/matrix.$c.log)]"; elif [ $rc -ne 0 ]; then fired="$fired $c(rc=$rc)"; fi
+    rc=$(cat $T/$c.rc)
+    if [ "$rc" = "1" ]; then fired="$fired $c[$(grep -c '^  \[' $T/$c.log)]"; elif [ "$rc" != "0" ]; then fired="$fired $c(rc=$rc)"; fi
   done
-  echo "$name =>$fired" >> $OUT
-  git checkout -- . ; git clean -fdq -- pilota pilota-build pilota-thrift-parser examples
+  echo "$name =>$fired" >> "$OUT"
+  rm -rf $T
+  git checkout -- . ; git clean -fdq
 done
-echo MATRIX-DONE >> $OUT
+echo MATRIX-DONE >> "$OUT"
